@@ -26,6 +26,18 @@ def handle (cmd : String) (args : List Sexp) : Option String :=
       match l with
       | [lo, hi] => pure (toString (RbModel.Bits.bytesToI32 [lo, hi]))
       | _ => none
+  | "bits.f64ToBytes", [w] => do
+      let w ← w.nat?
+      if w < 2 ^ 64 then pure (toString (Sexp.ofNats (RbModel.Bits.f64ToBytes w))) else none
+  | "bits.f64FromBytes", [a] => do
+      let l ← a.nats?
+      if l.length = 8 && l.all (· < 256) then pure (toString (RbModel.Bits.bytesToF64 l)) else none
+  | "bits.f64Fields", [w] => do
+      let w ← w.nat?
+      if w < 2 ^ 64 then
+        pure (toString (Sexp.ofNats
+          [RbModel.Bits.f64Sign w, RbModel.Bits.f64Exponent w, RbModel.Bits.f64Fraction w]))
+      else none
   | _, _ => none
 
 end RbModel.Drv.Bits
